@@ -108,7 +108,7 @@ func c06(r *Report) propMeta {
 	cl := "x/feeds/keeper.Keeper.CalculatePrices$1"
 	r.Gate("only-active-validators", cl, CallEff("builtin.append"), []Cond{{Op: "BOOL", A: []string{"field:ValidatorStatus.IsActive", "call:OracleKeeper.GetValidatorStatus"}, Want: true, Desc: "oracle status IsActive"}, nilErrOf("types.ValAddressFromBech32")}, GateOpts{})
 	r.ArgHas("only-bonded-validators", cps, "StakingKeeper.IterateBondedValidatorsByPower", 1, 1, "^closure:"+cl)
-	r.FreeVarWriters("validator-set-filled-only-by-iterator", cps, "validatorsByPower", []string{cl})
+	r.FreeVarWriters("validator-set-filled-only-by-iterator", cps, "[]github.com/bandprotocol/chain/v3/x/feeds/types.ValidatorInfo", []string{cl})
 	r.ArgHas("power-is-tokens", cl, "types.NewValidatorInfo", 1, 1, "call:ValidatorI.GetTokens")
 	r.Gate("only-fresh-prices", cps, CallEff("types.NewValidatorPriceInfo"), []Cond{{Op: "BOOL", A: []string{"^call:keeper.checkHavePrice"}, Want: true, Desc: "checkHavePrice"}}, GateOpts{})
 	r.ArgHas("freshness-of-this-price", cps, "keeper.checkHavePrice", 1, 1, "lookup", "field:Feed.SignalID")
